@@ -238,25 +238,48 @@ def _dec(ch):
     return {"1": True, "0": False, "R": "REFUSE"}[ch]
 
 
-def run_model(cases, tag="ops"):
-    """Feed cases to the extracted Coq model; returns {id: {"part":..., "model":[{sys:ans}], "spec":[...]}}."""
-    text = "\n".join(l for c in cases for l in case_lines(c)) + "\n"
-    p = subprocess.run([MODEL_BIN], input=text, capture_output=True, text=True, timeout=3600)
+def _parse_part(part):
+    if part == "N":
+        return None
+    return [[int(x) for x in l.split(",") if x != ""] for l in re.findall(r"\[([0-9,]*)\]", part)]
+
+
+def _run_bin(text):
+    p = subprocess.run([MODEL_BIN], input=text, capture_output=True, text=True, timeout=7200)
     if p.returncode != 0:
         raise RuntimeError("model binary failed: " + p.stderr[-2000:])
+    return p.stdout.splitlines()
+
+
+def run_model(cases):
+    """Feed cases to the extracted Coq model; returns {id: {"part","part_idx","model":[{sys:ans}],"spec":[...]}}."""
+    text = "\n".join(l for c in cases for l in case_lines(c)) + "\n"
     res = {}
-    for line in p.stdout.splitlines():
-        cid, part, rows = line.split("|")
-        if part == "N":
-            pp = None
-        else:
-            pp = [[int(x) for x in l.split(",") if x != ""] for l in re.findall(r"\[([0-9,]*)\]", part)]
+    for line in _run_bin(text):
+        cid, part, partidx, rows = line.split("|")
         m, s = [], []
         for row in rows.split():
             a, b = row.split(":")
             m.append({SYSTEMS[i]: _dec(a[i]) for i in range(4)})
             s.append({SYSTEMS[i]: _dec(b[i]) for i in range(4)})
-        res[cid] = {"part": pp, "model": m, "spec": s}
+        res[cid] = {"part": _parse_part(part), "part_idx": _parse_part(partidx), "model": m, "spec": s}
+    return res
+
+
+def run_model_diag(dcases):
+    """dcases: dicts {id,n,base,facts,extended,uses_facts}; returns {id: None (ValueError) | [5 flags]}."""
+    lines = []
+    for c in dcases:
+        lines.append("G %s %d %d %d" % (c["id"], c["n"], 1 if c["extended"] else 0, 1 if c["uses_facts"] else 0))
+        for (k, b, a) in c["base"]:
+            lines.append("D %d %s ; %s" % (k, to_prefix(b), to_prefix(a)))
+        for f in c["facts"]:
+            lines.append("F " + to_prefix(f))
+        lines.append("E")
+    res = {}
+    for line in _run_bin("\n".join(lines) + "\n"):
+        cid, flags = line.split("|")
+        res[cid] = None if flags == "V" else [{"1": True, "0": False, "-": None}[ch] for ch in flags]
     return res
 
 
@@ -358,3 +381,16 @@ class Timer:
 
     def s(self):
         return time.time() - self.t0
+
+
+def generic_match(finding, payload):
+    """A known finding lists key/value pairs under "match"; it matches a violation payload carrying the
+    same values (the case is identified by its content hash `case_key`)."""
+    m = finding.get("match", {})
+    for k, v in m.items():
+        if k == "case_key":
+            if "case" not in payload or case_key(payload["case"]) != v:
+                return False
+        elif payload.get(k) != v:
+            return False
+    return bool(m)
